@@ -3,6 +3,7 @@ from checks.common import per_part
 
 M = "xhair.obl.c02"
 QBUILT = [("h?n=", 1, "&t=a"), ("h/s?version=v", 1, "&q=q1")]
+FORCED = [("a__n:h/a/", 2, ""), ("s__version:h/s/q1/v", 2, ""), ("a__g:h/a/x/v1/", 2, "")]      # uri forms: a forced type, free text after it
 QBUILT_T = [("h?n=x&t=", 1, ""), ("h?version=v1&q=q1&t=", 1, ""), ("h/a?ext=m&o=g&version=v1&n=", 1, "")]
 
 
@@ -13,6 +14,9 @@ def x_obligations(tier):
     for pre, n, suf in QBUILT if tier == "quick" else QBUILT + QBUILT_T:
         o.append(Obl(f"C02-canonical[query-built,{pre!r}+{n}+{suf!r}]", M, "canonical", env={"VF_PRE": pre, "VF_N": str(n), "VF_SUF": suf}, timeout=170 if tier == "quick" else 600,
                      family="C02-canonical", bound=f"Sid({pre!r} + t + {suf!r}), every t with len(t) <= {n} without '?' and ':'"))
+    for pre, n, suf in FORCED:
+        o.append(Obl(f"C02-canonical[forced,{pre!r}+{n}]", M, "canonical", env={"VF_PRE": pre, "VF_N": str(n if tier == "quick" else n + 1), "VF_SUF": suf}, timeout=170 if tier == "quick" else 600,
+                     family="C02-canonical", bound=f"Sid({pre!r} + t), every t (all code points but '?' and ':')"))
     o += per_part("C02", "C02-uri", M, "via_uri", tier)
     o += per_part("C02", "C02-fields-rev", M, "via_fields", tier, extra_env={"VF_ROT": "0"})
     o += per_part("C02", "C02-fields-rot", M, "via_fields", tier, extra_env={"VF_ROT": "2"}, only=None if tier == "thorough" else ["h/a/x/", "h/s/q1/v1/"])
@@ -24,7 +28,7 @@ def x_obligations(tier):
                      bound="free value = 1..2 letters of a 12-letter quote/escape/control alphabet (solver-enumerated)"))
     # typing / rebuilding a plain string answers the same after a Sid OBJECT of the same string (forced, non-first type)
     # went through Sid(): spil's caches on, histories from C13's call alphabet (calls 1-3 first, every call second)
-    for i in (1, 2, 3):
+    for i in (1, 2, 3, 29):
         o.append(Obl(f"C02-history[after call#{i}]", "xhair.obl.c13", "pair", env={"VF_IDX": str(i), "VF_FIRST": "local"}, timeout=170 if tier == "quick" else 600, family="C02-history",
                      bound=f"history (call #{i}: a uri / Sid object with a forced type, call j) for every j of the call alphabet of C13, caches on"))
     o.append(Obl("C02-reach", M, "reach_forms", env={"VF_N": "6"}, timeout=150, expect="refute", family="C02-twin"))
